@@ -1088,7 +1088,7 @@ func oneTable(seed int64) tableResult {
 }
 
 func Run(args []string) {
-	rep := vh.NewReport(command, "random type tables as in sem-addprops (4 named types, root of depth<=3, recursive references, nullable, additionalProperties) whose integer / float literals carry min / max (each with probability 1/2, exclusive flags one time in three, bounds from pools of odd spellings: -0, 0.5, 1.0, 1.00, 1.50, 0.15e1, 15e-1, 1e1) and whose strings carry minLength / maxLength; documents print every scalar with a token of a pool of spellings per kind (1e1, 2e0, 15e-1, -0, 2.50, 0.15e1, 1e-1, strings of length 0..4); JSight text -> real AddType/Check/Validate, same IR with raw tokens -> Lean VA.validateT through Num.scan/Num.cmp; 12 documents per table: 5 sampled from the schema, 5 sampled then mutated, 2 random; tables refused by Check (rule sets the example violates, exponent bounds = lexical error 301, ...) are skipped and counted by error code; nontrivial = a scalar with min/max/length rules is reachable from the root; one number node in three takes bounds from a pool of negative fractions sharing the integer part; one absent exclusive flag in three is written out as exclusiveMinimum/exclusiveMaximum: false; half of the sampled numbers sit exactly on a bound or one last-digit unit / one tenth of it below or above, spelled as a random RFC 8259 numeral (optional minus also on zero, trailing zeros, exponent e/E with optional sign -3..3, decimal point moved: 15 = 1.5E1 = 0.15e+2 = 150E-1; zero-integer-part-exponent spellings 0e1 are generated and classed K-C10-zeroexp); string bounds 0..4 with half of the sampled strings at decoded length n-1, n, n+1 from a pool with simple escapes, \\uXXXX incl. surrogate pairs and a lone surrogate, and multi-byte UTF-8 (length = bytes of the unquoted value per the Lean Unquote model; the request carries a stand-in string of that length); a difference on a table where a non-nullable reference position whose names all end in a cycle of pure references (@a = @a: no alternative at all) is reachable from the root carries the class K-C09-cycle")
+	rep := vh.NewReport(command, "random type tables as in sem-addprops (4 named types, root of depth<=3, recursive references, nullable, additionalProperties) whose integer / float literals carry min / max (each with probability 1/2, exclusive flags one time in three, bounds from pools of odd spellings: -0, 0.5, 1.0, 1.00, 1.50, 0.15e1, 15e-1, 1e1) and whose strings carry minLength / maxLength; documents print every scalar with a token of a pool of spellings per kind (1e1, 2e0, 15e-1, -0, 2.50, 0.15e1, 1e-1, strings of length 0..4); JSight text -> real AddType/Check/Validate, same IR with raw tokens -> Lean VA.validateT through Num.scan/Num.cmp; 12 documents per table: 5 sampled from the schema, 5 sampled then mutated, 2 random; tables refused by Check (rule sets the example violates, exponent bounds = lexical error 301, ...) are skipped and counted by error code; nontrivial = a scalar with min/max/length rules is reachable from the root; one number node in three takes bounds from a pool of negative fractions sharing the integer part; one absent exclusive flag in three is written out as exclusiveMinimum/exclusiveMaximum: false; half of the sampled numbers sit exactly on a bound or one last-digit unit / one tenth of it below or above, spelled as a random RFC 8259 numeral (optional minus also on zero, trailing zeros, exponent e/E with optional sign -3..3, decimal point moved: 15 = 1.5E1 = 0.15e+2 = 150E-1; zero-integer-part-exponent spellings 0e1 are generated and classed K-C10-zeroexp); string bounds 0..4 with half of the sampled strings at decoded length n-1, n, n+1 from a pool with simple escapes, \\uXXXX incl. surrogate pairs and a lone surrogate, and multi-byte UTF-8 (length = bytes of the unquoted value per the Lean Unquote model; the request carries a stand-in string of that length); document string scalars are drawn every second time from a pool of 32 strings whose content looks like another JSON kind (\"1.5\", \"a.b\", \"true\", \"null\", \"{}\", \"1e5\", \"\", \" \", the same with \\u escapes), also as the value of the extra member under every additionalProperties mode one time in four; a case whose document holds such a string is validated 8 times and every repeat must give the model verdict (UNSTABLE otherwise); a difference on a table where a non-nullable reference position whose names all end in a cycle of pure references (@a = @a: no alternative at all) is reachable from the root carries the class K-C09-cycle")
 	initStrLen()
 	r := vh.NewRand(salt)
 	nTables := vh.Pick(3000, 100000)
